@@ -3,6 +3,7 @@ import Driver.Rid
 import Driver.Cache
 import Driver.Bytes
 import Driver.Watch
+import Driver.Src
 /-!
 # amdrv — the model driver
 
@@ -16,6 +17,7 @@ structure Engines where
   cache : Driver.Cache.St := {}
   bytes : Driver.Bytes.St := {}
   watch : Driver.Watch.St := {}
+  src : Driver.Src.St := {}
 
 def dispatch (e : Engines) (ws : List String) : Engines × String :=
   match ws with
@@ -28,6 +30,7 @@ def dispatch (e : Engines) (ws : List String) : Engines × String :=
     else if w.startsWith "by." then let (s, o) := Driver.Bytes.step e.bytes ws; ({ e with bytes := s }, o)
     else if w.startsWith "watch." then
       let (s, o) := Driver.Watch.step e.watch ws; ({ e with watch := s }, o)
+    else if w.startsWith "s." then let (s, o) := Driver.Src.stepAll e.src ws; ({ e with src := s }, o)
     else
       let (s, o) := Driver.Cache.step e.cache ws; ({ e with cache := s }, o)
 
